@@ -126,6 +126,15 @@ func TestC16(t *testing.T) {
 			}
 		}
 	}
+	// the tail is moved down by more than one range request (64 headers) across a restart
+	for _, lo := range []int{70, 100, 150, 200} {
+		for _, fh := range []string{"below-tail", "one"} {
+			for _, w := range []int64{0, int64(337 * time.Hour)} {
+				mon.Emit(r, "tail", c16P{Chain: "regular", StoreLo: lo, StoreHi: lo + 100, Net: lo + 110, AgeS: 0, Gossip: 1, Cfgs: []c16Cfg{{WindowNs: w, FromH: fh, BTNs: int64(c16Spacing), TPNs: tps[1]}}}, "tail")
+				mon.Emit(r, "tail", c16P{Chain: "regular", StoreLo: lo, StoreHi: lo + 100, Net: lo + 110, AgeS: 0, Gossip: 1, Cfgs: []c16Cfg{{WindowNs: w, FromH: "mid", BTNs: int64(c16Spacing), TPNs: tps[1]}, {WindowNs: w, FromH: fh, BTNs: int64(c16Spacing), TPNs: tps[1]}}}, "tail")
+			}
+		}
+	}
 	// catch-up after downtime on a chain denser than the block time: the store head lies between the estimate
 	// (head - window/blockTime) and the true window start (head - window/spacing), the old tail far behind
 	for _, ch := range []struct {
